@@ -403,10 +403,10 @@ let () =
                      | _ -> arb_named env (cl t) u
                    in
                    match r with
-                   | AOk (v, rest) -> Printf.sprintf "ok %s rest=%d wt=%d" (show_val v) (List.length rest)
+                   | AOk (v, rest) -> Printf.sprintf "ok %s rest=%d valid=%d" (show_val v) (List.length rest)
                        (match t with
                         | "ctap1::register::Request" | "ctap1::authenticate::Request" -> 1
-                        | _ -> if wt env type_fuel (TNamed (cl t)) (canon_val env type_fuel (TNamed (cl t)) v) then 1 else 0)
+                        | _ -> if within env type_fuel (TNamed (cl t)) v then 1 else 0)
                    | ANotEnough -> "err NotEnoughData"
                    | APanic s -> "panic " ^ str s)
                | "optab", [ b ] ->
